@@ -7,6 +7,7 @@ package main
 import (
 	"context"
 	"errors"
+	"math"
 	"math/rand"
 	"runtime"
 	"strconv"
@@ -34,6 +35,7 @@ var extraScale = map[string]func(c *Case, res map[string]any, fail func(string, 
 	"watchable-nil":        scaleWatchableNil,
 	"lazy-panic":           scaleLazyPanic,
 	"xmap-swap-storm":      scaleXMapSwapStorm,
+	"do-empty":             scaleDoEmpty,
 }
 
 // ---- C03: keys and values that were deleted or moved elsewhere can be garbage collected.
@@ -776,6 +778,32 @@ func scaleXMapSwapStorm(c *Case, res map[string]any, fail func(string, ...any)) 
 				fail("round %d: %d concurrent Swaps on one key: previous values %v, final value %d - value %d was handed out %d times (each value must be seen exactly once)", r, k, prev, last, v, seen[v])
 				return
 			}
+		}
+	}
+}
+
+// ---- C13: Do / DoContext / Map / MapContext with an empty index range (n <= 0, nil input): no call, no panic.
+func scaleDoEmpty(c *Case, res map[string]any, fail func(string, ...any)) {
+	for _, n := range []int{0, -1, -7, math.MinInt} {
+		for _, p := range []int{-1, 0, 1, 3} {
+			var calls atomic.Int32
+			parallel.Do(p, n, func(i int) { calls.Add(1) })
+			if err := parallel.DoContext(context.Background(), p, n, func(ctx context.Context, i int) error { calls.Add(1); return nil }); err != nil {
+				fail("DoContext(parallelism %d, n %d) returned %v", p, n, err)
+			}
+			if calls.Load() != 0 {
+				fail("Do/DoContext(parallelism %d, n %d) called f %d times", p, n, calls.Load())
+			}
+		}
+	}
+	for _, p := range []int{-1, 0, 1, 3} {
+		out := parallel.Map(p, []int(nil), func(x int) int { return x })
+		if len(out) != 0 {
+			fail("Map over a nil slice returned %v", out)
+		}
+		out2, err := parallel.MapContext(context.Background(), p, []int{}, func(ctx context.Context, x int) (int, error) { return x, nil })
+		if err != nil || len(out2) != 0 {
+			fail("MapContext over an empty slice returned (%v, %v)", out2, err)
 		}
 	}
 }
